@@ -9,40 +9,40 @@ HOOK_COMMITS = subprocess.run(["git", "-C", "/repo", "log", "--format=%H", "--gr
 # id -> (technique, level text, level note, design ref)
 CHECKS = {
  "C01": ("exhaustive enumeration of all well-typed programs up to a node bound x every witness assignment, encode/decode/re-encode on the real nodes, plus an independent bit-level codec decoding the bytes to a structurally computed maximal-sharing quotient",
-         "Every 1->1 program among all canonical DAGs with <=5 (thorough 6) nodes over a 20-symbol alphabet (witness, disconnect with/without branch, assertions with hidden CMRs, fail, words, a jet), Core and Elements, commitment form and redemption form with every witness assignment of <=4-bit types (corner values above); roots, per-node kinds/arrows/roots, witness bits per node, byte-identical re-encoding; the reference codec must parse the bytes to exactly the expected node list.",
+         "Every 1->1 program among all canonical DAGs with <=5 (thorough 6) nodes over a 20-symbol alphabet (witness, disconnect with/without branch, assertions with hidden CMRs, fail, words, a jet), Core and Elements, commitment form and redemption form with every witness assignment of <=4-bit types (corner values above); roots, per-node kinds/arrows/roots, witness bits per node, byte-identical re-encoding; the reference codec must parse the bytes to exactly the expected node list. Plus: every jet of both families as `comp (comp witness j) unit`; one witness of every type with <=3/4 constructors and of every type whose padding flag is decided by one child (all equal-width sums of <=6/7 constructors with exactly one padded arm), every value, followed by a second witness; one witness of every bit width 1..600/1100.",
          "Trusts the reference codec and the structural sharing quotient; jet code words are atoms. Programs above the node bound and wide witnesses beyond corner values are not explored.", "5/C01"),
  "C02": ("exhaustive enumeration of all byte strings up to a length bound as program and as witness for all three decoders and both jet families, plus every single (thorough: double) bit-level deviation and every single structural deviation (via an independent encoder) of every canonical encoding of the program population, plus magnitude macro-cases",
-         "All byte strings of <=2/3 bytes as program (Redeem, Commit, Construct decoders; Core, Elements) and as witness for six host programs with witnesses of type 2, 2^8, 2^16, 2^512, 1+2^8 and (2, 2^8); for every program of <=4/5 nodes and its witness assignments: every bit flip, prefix, 4 one-byte extensions, every padding bit, unsharing of every shared node, right-child-first emission at every binary node, four kinds of unused/hidden node insertion; 8-12 pair-doubling depths x 4 bases x 6 tails, word/length/back-reference naturals at the 31/32-bit limits. Each call under catch_unwind, a watchdog and an allocation meter; accepted => must re-encode to the input.",
+         "All byte strings of <=2/3 bytes as program (Redeem, Commit, Construct decoders; Core, Elements) and as witness for six host programs with witnesses of type 2, 2^8, 2^16, 2^512, 1+2^8 and (2, 2^8); for every program of <=4/5 nodes and its witness assignments: every bit flip, prefix, 4 one-byte extensions, every padding bit, unsharing of every shared node, right-child-first emission at every binary node, four kinds of unused/hidden node insertion; 8-12 pair-doubling depths x 4 bases x 6 tails, word/length/back-reference naturals at the 31/32-bit limits. Each call under catch_unwind, a watchdog and an allocation meter; accepted => must re-encode to the input. Plus: one typed witness node for every type with <=3/4 constructors and the padding-flag family x every witness string of <=2 bytes, where the accepted set must equal the reference's compact encodings; identity twins (two nodes with equal identity hash but different interior types) in shared and in pointer form.",
          "Trusts the reference encoder used to assemble non-canonical inputs. Byte strings longer than 3 bytes that are not within 2 deviations of a population member are not explored.", "5/C02"),
  "C03": ("exhaustive differential enumeration: every (program bytes, witness bytes) pair in the space is run through the vendored C pipeline stage by stage and through RedeemNode::decode, verdicts and roots compared",
-         "All byte strings of <=2/3 bytes at every program/witness split; the encodings of every Elements program with <=5 nodes with all witness assignments (<=4-bit types) and every single deviation of each (thorough: double deviations for <=3 nodes); comp (comp witness j) unit for all 471 Elements jets. Accept/reject must agree except C's FailCode; on joint acceptance CMR, AMR, IHR and the cost bound must be identical.",
+         "All byte strings of <=2/3 bytes at every program/witness split; the encodings of every Elements program with <=5 nodes with all witness assignments (<=4-bit types) and every single deviation of each (thorough: double deviations for <=3 nodes); comp (comp witness j) unit for all 471 Elements jets. Accept/reject must agree except C's FailCode; on joint acceptance CMR, AMR, IHR and the cost bound must be identical. Plus one witness of every bit width 1..1100/2100 (pinned by a constant of the same type), 4 values each.",
          "The C library is the reference. C results ExecMemory/ExecBudget/Malloc are treated as outside the statement.", "5/C03"),
  "C04": ("exhaustive enumeration of all canonical combinator DAGs up to a node bound x every topological construction order, each run through the real ConstructNode API in a fresh context and judged by a textbook unifier",
          "All DAGs with <=5 (thorough 6; 7 over a reduced 8-symbol alphabet) nodes over an 18-symbol alphabet (well-typed or not, every sharing pattern), as program and as expression, in every linear extension of the dependency order; every Core and Elements jet as a typed leaf in all DAGs of <=3 nodes; pair-doubling macro-cases (up to 100 doublings) for termination, memory and displayability of errors. Verdict, every node's arrow and order-independence are compared on every case.",
          "Trusts the 60-line Robinson unifier and the typing rules as transcribed; DAGs above the node bound are only covered by the doubling macro-cases.", "5/C04"),
  "C05": ("exhaustive type-directed enumeration of all well-typed terms up to a size bound over all types up to a constructor bound, each built on the real nodes with pinned arrows and executed on the real Bit Machine with every input value in 17 placement contexts, judged by a big-step evaluator",
-         "All terms with <=4/5 nodes for every arrow A->B over the 11/51 types with <=2/3 constructors (iden, unit, injl/r, take, drop, comp through every mid type, case, pair, assertl/r, fail, witness of every value, words, verify), every input value; terms of <=3/4 nodes additionally at read offsets 1..7, write offsets 1..7, inside reused dirty frames and with output copied from a dirty frame; 153 arithmetic/logic/comparison jets against a hand-written table (exhaustive up to 16/20 input bits, 14 corner values per operand above) at 4 placements; disconnect with 3 left shapes x all small right branches (CMR of the branch re-hashed from scratch). Verdict kind (assertion / fail node / jet) and output value compared on every execution.",
+         "All terms with <=4/5 nodes for every arrow A->B over the 11/51 types with <=2/3 constructors (iden, unit, injl/r, take, drop, comp through every mid type, case, pair, assertl/r, fail, witness of every value, words, verify), every input value; terms of <=3/4 nodes additionally at read offsets 1..7, write offsets 1..7, inside reused dirty frames and with output copied from a dirty frame; 153 arithmetic/logic/comparison jets against a hand-written table (exhaustive up to 16/20 input bits, 14 corner values per operand above) at 4 placements; disconnect with 3 left shapes x all small right branches (CMR of the branch re-hashed from scratch). Verdict kind (assertion / fail node / jet) and output value compared on every execution. Plus comp/pair/case over 7 gadgets with crossed cell/frame profiles, and every term of <=4/5 nodes from each padded source type of a closed 12-type list (every input).",
          "Trusts the big-step evaluator and the jet table (the table is itself compared with the C jets here). Hash, secp and introspection jet semantics are not covered (C06 compares those with C).", "5/C05"),
  "C06": ("exhaustive differential enumeration: every (program, witness assignment, environment) triple of the population is executed by the Rust Bit Machine and by libsimplicity's evaluator on the re-decoded serialisation, sharing one marshalled environment",
-         "Every Elements program with <=4/5 nodes (alphabet with witness, assertions, disconnect, case, words, verify, lock_time, current_index, eq_32) x all witness assignments x 6/all environments; comp (comp witness j) unit for all 471 jets x corner witnesses x every 4th/all of ~80 one-deviation environments (verdict classes ok/assertion/jet failure); and comp witness j as a bare expression for all 471 jets: the output bits of both evaluators must be equal.",
+         "Every Elements program with <=4/5 nodes (alphabet with witness, assertions, disconnect, case, words, verify, lock_time, current_index, eq_32) x all witness assignments x 6/all environments; comp (comp witness j) unit for all 471 jets x corner witnesses x every 4th/all of ~80 one-deviation environments (verdict classes ok/assertion/jet failure); and comp witness j as a bare expression for all 471 jets: the output bits of both evaluators must be equal. Plus C05's disconnect terms and crossed-profile terms as `comp witness t` expressions pinned to their principal types: output bits of both evaluators compared (1286 programs at quick). Environments include the positional family (each per-input/per-output deviation at each of 3 positions).",
          "The C evaluator is the reference. Programs with fail nodes are outside (C refuses them).", "5/C06"),
  "C07": ("the executions of C05 (all terms x inputs x placements, success and failing paths) re-run on a machine instrumented with high-water marks, plus nesting towers and magnitude macro-cases",
-         "Same term space as C05 plus comp/disconnect towers of depth <=4/6 around every small term; cells used <= |A|+|B|+extra_cells and frames used <= extra_frames+2 on every execution; 8/16 pair-doubling depths x 4 tails: programs whose bounds exceed the hard limits must be refused by BitMachine::for_program without the allocation being attempted (allocation meter), accepted ones must run inside their buffer.",
+         "Same term space as C05 plus comp/disconnect towers of depth <=4/6 around every small term; cells used <= |A|+|B|+extra_cells and frames used <= extra_frames+2 on every execution; 8/16 pair-doubling depths x 4 tails: programs whose bounds exceed the hard limits must be refused by BitMachine::for_program without the allocation being attempted (allocation meter), accepted ones must run inside their buffer. The crossed-profile and padded-source legs of C05 are included.",
          "Relies on hook H1 (two counters in new_write_frame) and on debug assertions / overflow checks being enabled in the harness build.", "5/C07"),
  "C08": ("exhaustive enumeration of (program, witness assignment) pairs whose run succeeds, each pruned on the real library and judged by an oracle chain ending in libsimplicity's evaluator with all anti-DoS checks",
          "Every Core and Elements program with <=4/5 nodes x witness assignments, plus selector gadgets (a sum-typed witness feeding a case over 9 type pairs x branch menus, every witness value; the same case node under two parents with every pair of witness values; nested selectors): prune succeeds, CMR equal, same output, every pruned witness is of its node's type, re-encodes and re-decodes, pruning again is the identity, and (Elements) C decode + evalTCOExpression(CHECK_ALL) == NoError.",
          "C's anti-DoS verdict is the reference for 'no unexecuted node/branch remains'. One base environment.", "5/C08"),
  "C09": ("explicit-state breadth-first search over the conversion graph of node kinds (state = history replayed on fresh real objects, canonical key = representation + hidden set + branch attachment) with the CMR invariant checked in every state; exhaustive re-hashing of every node of every constructible DAG from tag strings; exhaustive hiding of every node; population-wide injectivity",
-         "All constructible DAGs with <=5 nodes (Core: 23-symbol alphabet; Elements: 18): every node's CMR equals SHA-256 compression over IVs recomputed from the tag strings, before and after inference, and the root is unchanged by hiding any node (thorough: any pair). For every program with <=4/5 nodes a BFS of depth 4/5 over 14 transitions (finalize_types, finalize_unpruned, CommitNode::finalize, unfinalize, unfinalize_types, to_construct_node, Named round trip, encode/decode, change witness, attach/detach branches, hide case children). Injectivity over all constructible DAGs with <=4/5 nodes.",
+         "All constructible DAGs with <=5 nodes (Core: 23-symbol alphabet; Elements: 18): every node's CMR equals SHA-256 compression over IVs recomputed from the tag strings, before and after inference, and the root is unchanged by hiding any node (thorough: any pair). For every program with <=4/5 nodes a BFS of depth 4/5 over 14 transitions (finalize_types, finalize_unpruned, CommitNode::finalize, unfinalize, unfinalize_types, to_construct_node, Named round trip, encode/decode, change witness, attach/detach branches, hide case children). Injectivity over all constructible DAGs with <=4/5 nodes. Policy compilation as a conversion path: every policy with <=3/4 nodes over 11 leaves: Policy::cmr, commit() and every satisfied program (8 data subsets) against the compiled program's tree re-hashed from scratch.",
          "Trusts the from-scratch SHA-256 and the published CMR formulas; jet CMRs are atoms here. No cryptographic claim beyond the enumerated population.", "5/C09"),
  "C10": ("exhaustive enumeration of (type, value, production history) triples and prune targets, judged by reference type/value trees",
-         "Every type with <=3/4 constructors plus word/option/buffer types, every value (corner values above 4096), 17 production histories including sub-value extraction at every bit offset from dirty buffers, every prune target with <=2/3 constructors and every two-step chain. Complete within those bounds.",
+         "Every type with <=3/4 constructors plus word/option/buffer types, every value (corner values above 4096), 17 production histories including sub-value extraction at every bit offset from dirty buffers; offsets 1..9 and 16, and payloads cut from a parent and re-wrapped by Value::left/right (26 histories in all); the padding-flag type family, every prune target with <=2/3 constructors and every two-step chain. Complete within those bounds.",
          "Trusts the reference enum trees (width, padding, compact/padded bits by the Tech Report definitions). Wide types only on corner values.", "5/C10"),
  "C11": ("exhaustive pairwise (and triple-wise) comparison of all (value, history) productions per type against reference denotations",
-         "All ordered pairs of productions of every type with <=2/3 constructors (plus small words and unequal sums), across 17 histories, for ==, cmp, partial_cmp, hash and Word; all triples for transitivity on the smaller types; cross-type pairs on constructor representatives.",
+         "All ordered pairs of productions of every type with <=2/3 constructors (plus small words and unequal sums), across 17 histories, for ==, cmp, partial_cmp, hash and Word; all triples for transitivity on the smaller types; cross-type pairs on constructor representatives. Sibling sub-values cut from ONE parent ((a,b) and (a,(b,a)) built by constructor, compact and padded decoding) compared with each other.",
          "Hash compared with SipHasher default keys; types beyond the bound only on corner values.", "5/C11"),
  "C12": ("exhaustive enumeration of (witness node type, position, candidate value, route) cases through the public finalisation/decoding routes, each accepted program re-decoded and executed",
-         "Witness node types: all types with <=2/3 constructors plus 2^8, 2^32, 1+2^8 (forced by principal typing through a consumer that destructs the type); witness on an executed and on a later-pruned branch; candidates: every value (corner values when wide) of every one of those types; routes finalize_unpruned, finalize_pruned, human-readable witness map (both), RedeemNode::decode.",
+         "Witness node types: all types with <=2/3 constructors plus 2^8, 2^32, 1+2^8 (forced by principal typing through a consumer that destructs the type); witness on an executed and on a later-pruned branch; candidates: every value (corner values when wide) of every one of those types; routes finalize_unpruned, finalize_pruned, human-readable witness map (both), RedeemNode::decode. Host types include the padding-flag family; every host has a follower witness so that a miscounted witness cannot hide in the end padding.",
          "Accepted programs are judged by is_of_type on every witness, a re-decode of their own serialisation and an instrumented execution.", "5/C12"),
  "C13": ("explicit-state exploration of the real BitIter (state = full internal state) over every 2/3-byte stream, plus exhaustive enumeration of writer op sequences, naturals, bit strings and windows against a Vec<bool> model",
          "Every reachable reader state over every byte string of the bound length is visited and an invariant plus model agreement is evaluated on every transition; all writer histories to depth 3/4, all naturals to 2^16/2^22 and around every power of two, all windows over <=3-byte slices. Exhaustive within those bounds, so any cursor/offset/refill bug that manifests on a stream of <=3 bytes is found.",
@@ -51,20 +51,20 @@ CHECKS = {
          "All 368 + 471 + 428 jets and all ~590 extern items of simplicity-sys (497 functions). Exhaustive over these finite sets.",
          "Trusts clang's AST for the C side and the regex extraction of the Rust extern blocks (an audit that finds fewer than 400 items fails). Return types and statics are compared but only reported as notes.", "5/C14"),
  "C15": ("exhaustive enumeration of (environment, field jet, index) triples over a menu-product environment space, each jet executed on the real Bit Machine in an environment built by the public ElementsEnv::new and compared with the value computed from the Rust-side transaction",
-         "~80 one-deviation environments (thorough: ~2500 two-deviation ones) over inputs 1-3 (pegin, new issuance / reissuance x explicit/confidential/null amounts x proofs, annex absent/empty/1/300 bytes, sequences, script_sig), outputs 0-3 (explicit/confidential asset, value, nonce; empty/1-byte/OP_RETURN/300-byte scripts; proofs; fees in two assets), lock times, versions, 0/1/2/128 merkle steps, leaf-version parity; x 58 jets (all 16 current_* mirrors) x every index in [0, n+1] plus 2^31 and 2^32-1; sighash_all() == sig_all_hash.",
+         "~80 one-deviation environments (thorough: ~2500 two-deviation ones) over inputs 1-3 (pegin, new issuance / reissuance x explicit/confidential/null amounts x proofs, annex absent/empty/1/300 bytes, sequences, script_sig), outputs 0-3 (explicit/confidential asset, value, nonce; empty/1-byte/OP_RETURN/300-byte scripts; proofs; fees in two assets), lock times, versions, 0/1/2/128 merkle steps, leaf-version parity; x 58 jets (all 16 current_* mirrors) x every index in [0, n+1] plus 2^31 and 2^32-1; sighash_all() == sig_all_hash. Plus ~90 positional environments: 3 pairwise distinct inputs and outputs, each deviation at each position, two values of the current index; range/surjection proofs are distinct byte strings per role and position.",
          "Expected values are computed from the elements crate's structures and the harness's own SHA-256. The 40 aggregate-hash jets are not given an independent expectation here (C06 compares their outputs with the C evaluator).", "5/C15"),
  "C16": ("exhaustive enumeration of all policy trees up to a node bound x every subset of available secrets x lock-time environments x every reordering of commutative children, judged by Boolean/threshold semantics with leaf truth obtained by running the leaf's own compiled fragment",
-         "All policies with <=3/5 nodes over 10 leaves (2 keys, a hash, after 41/42/43, older 1/2, trivial, unsatisfiable) and and/or/thresh(k, 2-3 children, 0<=k<=n): Policy::cmr == commit().cmr(); for each of 8 availability subsets x 5/8 environments (lock time and sequence below/at/above the thresholds, final, time-typed, disabled): satisfy succeeds <=> the policy is true, the returned program has the policy's CMR and runs. Canonical sorting: all policies with <=5 nodes, every permutation of commutative children at every depth, idempotence.",
+         "All policies with <=3/5 nodes over 10 leaves (2 keys, a hash, after 41/42/43, older 1/2, trivial, unsatisfiable) and and/or/thresh(k, 2-3 children, 0<=k<=n): Policy::cmr == commit().cmr(); for each of 8 availability subsets x 5/8 environments (lock time and sequence below/at/above the thresholds, final, time-typed, disabled): satisfy succeeds <=> the policy is true, the returned program has the policy's CMR and runs. Canonical sorting: all policies with <=5 nodes, every permutation of commutative children at every depth, idempotence. Plus all policies with 6..7/8 nodes over three ordered leaves for sorting. An unsatisfiable leaf with non-zero entropy is among the leaves.",
          "Signatures are real BIP-340 signatures from fixed keys. Larger policies are not explored.", "5/C16"),
  "C17": ("exhaustive enumeration of every committed program of the population and of every text rendering of it (each node named or inlined, ascriptions on/off, hidden CMRs as literal or as expression), each parsed, re-rendered and re-parsed on the real parser; exhaustive token strings for totality",
-         "Every commitment-time program with <=4/5 nodes (witness, assertions with hidden CMRs, disconnect holes, fail, words, jet): from_program -> string_serialize -> parse must give the same CMR and bit encoding; every one of the 2^(n-1) inline/named renderings x ascriptions x two hidden-CMR notations: parse, compare with the reference CMR and the program's own encoding, re-render, re-parse, compare again (CMR, encoding, set of node arrows); all strings of <=3/4 tokens over a 33-token alphabet with and without a `main :=` prefix, and all 2-byte raw texts, for termination without panic. Every parse runs twice in-process as a hash-order audit.",
+         "Every commitment-time program with <=4/5 nodes (witness, assertions with hidden CMRs, disconnect holes, fail, words, jet): from_program -> string_serialize -> parse must give the same CMR and bit encoding; every one of the 2^(n-1) inline/named renderings x ascriptions x two hidden-CMR notations: parse, compare with the reference CMR and the program's own encoding, re-render, re-parse, compare again (CMR, encoding, set of node arrows); all strings of <=3/4 tokens over a 33-token alphabet with and without a `main :=` prefix, and all 2-byte raw texts, for termination without panic. Every parse runs twice in-process as a hash-order audit. Plus `comp (comp witness j) unit` for every Core jet (every type abbreviation the printer knows).",
          "Programs above the node bound and texts with more than one root are not explored.", "5/C17"),
  "C18": ("exhaustive enumeration of all pointer-DAG shapes up to a node bound x sharing policies (no sharing, pointer sharing, every congruence as a class-sharing tracker), iterators stepped against a recursive reference; real Commit/Redeem DAGs with the real MaxSharing",
-         "All canonical DAG shapes with <=6/7 nodes and out-degree <=2 through a harness type implementing the public DagLike, under NoSharing, InternalSharing and every congruence partition (<=5/6 nodes) as an abstract identity-hash sharing; post-order, right-to-left, pre-order, verbose pre-order (counters, depth, parent, depth limit) and is_shared_as compared item by item. Real CommitNode/RedeemNode DAGs of <=4/5 nodes with MaxSharing keyed on the actual identity hash.",
+         "All canonical DAG shapes with <=6/7 nodes and out-degree <=2 through a harness type implementing the public DagLike, under NoSharing, InternalSharing and every congruence partition (<=5/6 nodes) as an abstract identity-hash sharing; post-order, right-to-left, pre-order, verbose pre-order (counters, depth, parent, depth limit) and is_shared_as compared item by item. Real CommitNode/RedeemNode DAGs of <=4/5 nodes with MaxSharing keyed on the actual identity hash. Real ConstructNode DAGs of <=4/5 nodes (with one- and two-child disconnect) through `&` and `Arc` handles, post/rtl/pre order under both sharing modes, against the enumerated DAG itself.",
          "Trusts the 25-line recursive reference post-order. Larger shapes are not explored.", "5/C18"),
- "C20": ("stateless model checking of real multi-threaded executions: a controlled token-passing scheduler over real OS threads explores every schedule with at most 2 (thorough 3) preemptions of every pair (and drop-centred triple) of library workloads, via scheduling points compiled into the library (hook H2)",
-         "7 workloads (decode of shared bytes; construct + finalize incl. an occurs-check failure in an own context; execution of a shared Arc<RedeemNode> with C jets on an own machine; prune of the shared program; clone/drop of the shared program; drop of the owner's reference so that the last reference dies in any thread; compare/prune/destructure a shared Value): all 28 unordered pairs at <=2/3 preemptions and 7 triples at <=1/2; every complete schedule's per-thread result fingerprints must equal the sequential ones, no panic, no deadlock/livelock (spinning is visible), the shared program must be freed; every tenth schedule is replayed and must reproduce the same trace.",
-         "Preemptions happen only at the H2 points (context-lock, name and precomputed-type points thinned to every 8th per thread); code inside C jets and weak-memory behaviour of std::sync::Arc are not explored; at most 3 threads.", "5/C20"),
+ "C20": ("stateless model checking of real multi-threaded executions: a controlled token-passing scheduler over real OS threads explores every schedule with at most 2 (thorough 3) preemptions of every pair (and drop-centred triple) of library workloads, via scheduling points compiled into the library (hook H2); complemented by a happens-before race detector (helgrind) over unmanaged threads running every Elements jet, and by a SAMPLED cold-start pass (fresh process per trial); neither complement is counted as exhaustive",
+         "7 workloads (decode of shared bytes; construct + finalize incl. an occurs-check failure in an own context; execution of a shared Arc<RedeemNode> with C jets on an own machine; prune of the shared program; clone/drop of the shared program; drop of the owner's reference so that the last reference dies in any thread; compare/prune/destructure a shared Value): all 28 unordered pairs at <=2/3 preemptions and 7 triples at <=1/2; every complete schedule's per-thread result fingerprints must equal the sequential ones, no panic, no deadlock/livelock (spinning is visible), the shared program must be freed; every tenth schedule is replayed and must reproduce the same trace. Complement 1: two unmanaged threads run every Elements jet on its corner inputs under helgrind; any unordered conflicting access with a libsimplicity C frame is a violation (verdict independent of timing). Complement 2 (sampled, 150/2400 trials): a fresh process, 8 threads behind a spin barrier before each first use of lazily built tables, three first-use orders, results compared with a single-threaded fresh process.",
+         "Preemptions happen only at the H2 points (context-lock, name and precomputed-type points thinned to every 8th per thread); interleavings inside C jets and inside code without scheduling points are not explored by the scheduler (only by the two complements, the second of which samples); weak-memory behaviour of std::sync::Arc is not explored; at most 3 managed threads.", "5/C20"),
  "C19": ("exhaustive enumeration of (witness stack shape, cost) pairs around every compact-size boundary, judged by brute-force search for the shortest sufficient annex",
          "All stacks with item counts and last-item sizes straddling 252/253 and 65535/65536, all costs whose deficit is within +-3/6 of each region edge and every deficit 0..600/70000 with +-1 milliweight rounding variants. Complete over that grid.",
          "Trusts the compact-size definition re-implemented in the oracle; costs between the grid points are not enumerated.", "5/C19"),
